@@ -514,7 +514,12 @@ class StateEngine(object):
         execution = context["Execution"]
 
         if "Name" not in execution:
-            execution["Name"] = str(uuid.uuid4())
+            if isinstance(execution.get("Id"), str) and ":" in execution["Id"]:
+                # The name is the last part of the execution ARN, which is
+                # how it is derived wherever only the ARN is known.
+                execution["Name"] = execution["Id"].rpartition(":")[2]
+            else:
+                execution["Name"] = str(uuid.uuid4())
 
         if "Id" not in execution:
             # Create Id
